@@ -27,6 +27,8 @@ EXPLANATION = (
     "through the injected parameter)."
 )
 BANNED = {"as_completed": "yields results in completion order", "wait": "returns unordered done/pending sets",
+          "wait_for": "makes the result depend on wall-clock time on the shared event loop (what else runs concurrently)",
+          "timeout": "makes the result depend on wall-clock time on the shared event loop (what else runs concurrently)",
           "Queue": "hands items over in completion order", "PriorityQueue": "hands items over in completion order",
           "LifoQueue": "hands items over in completion order"}
 CFV_ = "ahbicht.models.condition_nodes.ConditionFulfilledValue"
@@ -98,6 +100,29 @@ def mixed_evaluator_results(model: SrcModel):
 
 def check(ctx: Ctx) -> None:
     model = ctx.model
+    # ---- C12.noapi
+    hits = []
+    for fn in model.functions.values():
+        if fn.module.name.endswith("_vstat_stub"):
+            continue
+        for n in walk_shallow(fn.node):
+            if isinstance(n, ast.Call):
+                name = dotted(n.func) or ""
+                last = name.split(".")[-1]
+                if last in BANNED and ("asyncio" in name or last in ("as_completed",) or model.resolve_expr(fn.module, n.func) in (f"ext:asyncio.{last}",)):
+                    hits.append((fn, n, last))
+                if last in ("create_task", "ensure_future", "Task") and any(kw.arg == "context" for kw in n.keywords):
+                    hits.append((fn, n, "context="))
+    for fn, n, last in hits:
+        ctx.ob("C12.noapi", f"{fn.qualname}::{last}", False, f"{fn.qualname} uses {norm(n.func)}: {BANNED.get(last, 'an explicit context breaks the per-task context copy')}",
+               file=fn.file, line=n.lineno, function=fn.qualname)
+    ctx.ob("C12.noapi", "scan", True, "")
+    control = "import asyncio\nasync def f(xs):\n    return [await x for x in asyncio.as_completed(xs)]\n"
+    ov = dict(model.overlay)
+    ov["src/ahbicht/_vstat_control2.py"] = control
+    cm = SrcModel(model.repo, overlay=ov)
+    seen = any(isinstance(n, ast.Call) and (dotted(n.func) or "").endswith("as_completed") for n in ast.walk(cm.func("ahbicht._vstat_control2.f").node))
+    ctx.require(seen, "C12.noapi positive control not recognised")
     # ---- C12.mixed: gather_if_necessary keeps positions
     gin = model.func("ahbicht.utility_functions.gather_if_necessary")
     for k in range(0, 5):
@@ -134,8 +159,15 @@ def check(ctx: Ctx) -> None:
                                 hints={f"50{k}": ("" if k == "2" else f"text {k}") for k in set(keys)}, async_keys=tuple(async_keys) + tuple(f"90{k}" for k in async_keys), gather_order=go)
                     it = h.it
                     out = {}
+                    seen_contexts = []
+                    for q_ in list(model.functions):
+                        if q_.startswith("ahbicht._vstat_stub.make_rc_method.") and q_.split(".")[-1].startswith("evaluate"):
+                            it.call_observers[q_] = lambda a, k: seen_contexts.append(a[1] if len(a) > 1 else k.get("context"))
                     try:
                         r = it.await_(it.call(it.getattr(h.rc_eval, "evaluate_conditions", None, None), [list(keys), Opaque_data()], {}, None, None), None, None)
+                        objs = [c for c in seen_contexts if c is not None]
+                        if len(objs) != len({id(c) for c in objs}):
+                            return ("shared-context", len(objs), len({id(c) for c in objs}))
                         out["rc"] = {k: (v.name if isinstance(v, EnumVal) else repr(v)) for k, v in r.items()}
                         if len(keys) > 1:  # the documented optional parameter: a context for some of the keys only
                             ctxs = {keys[1]: Obj("ahbicht.content_evaluation.evaluationdatatypes.EvaluationContext", {"scope": "$"})}
@@ -154,6 +186,9 @@ def check(ctx: Ctx) -> None:
                 ctx.count()
                 ok = len(outs) == 1 and outs[0][0] == "ret"
                 detail = outs
+                if outs and outs[0][0] == "shared-context":
+                    detail = (f"the evaluation methods of {outs[0][1]} keys were handed only {outs[0][2]} distinct default context object(s): "
+                              "evaluators that adjust their context while they await would race on it")
                 if ok:
                     out, states = outs[0][1], outs[0][2]
                     ok = (out["rc"] == {k: states[k] for k in keys}
@@ -250,29 +285,6 @@ def check(ctx: Ctx) -> None:
         b = observed(kind, run_resolver(model, text, PACKAGES, True, True, "rev"))
         ctx.count(2)
         ctx.ob("C12.order", f"resolver:{text}", a == b, f"resolving {text}: in-order schedule {a}, reversed schedule {b}", file="src/ahbicht/expressions/expression_resolver.py")
-    # ---- C12.noapi
-    hits = []
-    for fn in model.functions.values():
-        if fn.module.name.endswith("_vstat_stub"):
-            continue
-        for n in walk_shallow(fn.node):
-            if isinstance(n, ast.Call):
-                name = dotted(n.func) or ""
-                last = name.split(".")[-1]
-                if last in BANNED and ("asyncio" in name or last in ("as_completed",) or model.resolve_expr(fn.module, n.func) in (f"ext:asyncio.{last}",)):
-                    hits.append((fn, n, last))
-                if last in ("create_task", "ensure_future", "Task") and any(kw.arg == "context" for kw in n.keywords):
-                    hits.append((fn, n, "context="))
-    for fn, n, last in hits:
-        ctx.ob("C12.noapi", f"{fn.qualname}::{last}", False, f"{fn.qualname} uses {norm(n.func)}: {BANNED.get(last, 'an explicit context breaks the per-task context copy')}",
-               file=fn.file, line=n.lineno, function=fn.qualname)
-    ctx.ob("C12.noapi", "scan", True, "")
-    control = "import asyncio\nasync def f(xs):\n    return [await x for x in asyncio.as_completed(xs)]\n"
-    ov = dict(model.overlay)
-    ov["src/ahbicht/_vstat_control2.py"] = control
-    cm = SrcModel(model.repo, overlay=ov)
-    seen = any(isinstance(n, ast.Call) and (dotted(n.func) or "").endswith("as_completed") for n in ast.walk(cm.func("ahbicht._vstat_control2.f").node))
-    ctx.require(seen, "C12.noapi positive control not recognised")
     # ---- C12.ctx: every evaluation of is_valid_expression sees the data its own content_evaluation_result_setter call
     # configured (the setter is context-local: it runs inside the task that evaluates, before the evaluation)
     ive = model.func("ahbicht.content_evaluation.is_valid_expression")
